@@ -1075,6 +1075,75 @@ pub fn main(args: Args) -> i32 {
             }
         });
     }
+    // handled errors: a host function calls back into the engine (a macro, the caller, a block) from
+    // inside scoped constructs and swallows the failure; whatever the failed call had opened - and the
+    // call itself, when it is refused at entry by the recursion limit - must leave the caller's scope,
+    // loop and captures exactly as they were
+    {
+        const CALLEES: &[(&str, &str, &str)] = &[
+            ("macro_ok", "{% macro cal() %}ok{% endmacro %}", "attempt(cal)"),
+            ("macro_fails_deep_inside", "{% macro cal() %}{% with z = 1 %}{% for q in [1, 2] %}{% set cap %}{% filter upper %}{% autoescape true %}{{ 1 // 0 }}{% endautoescape %}{% endfilter %}{% endset %}{% endfor %}{% endwith %}{% endmacro %}", "attempt(cal)"),
+            ("macro_fails_in_nested_macro", "{% macro inner() %}{% for q in [1] %}{{ [] | first | int // 0 }}{% endfor %}{% endmacro %}{% macro cal() %}{% with z = 1 %}{{ inner() }}{% endwith %}{% endmacro %}", "attempt(cal)"),
+            ("macro_recursing_to_the_limit", "{% macro cal(n=0) %}{% with z = n %}{{ cal(n + 1) }}{% endwith %}{% endmacro %}", "attempt(cal)"),
+            ("block_fails", "", "attempt_block('bad')"),
+            ("block_ok", "", "attempt_block('good')"),
+            ("macro_with_break_path", "{% macro cal() %}{% for q in [1, 2] %}{% with z = q %}{% if q == 2 %}{{ 1 // 0 }}{% endif %}{% endwith %}{% endfor %}{% endmacro %}", "attempt(cal)"),
+        ];
+        const HOSTS: &[(&str, &str, &str)] = &[
+            ("with_for", "{% with a = 'A' %}{% for i in [1, 2] %}@|{{ a }}|{{ i }}|{{ loop.index }}|{{ top }};{% endfor %}{% endwith %}", "%|A|1|1|T;%|A|2|2|T;"),
+            ("set_block_filter", "{% set cap %}{% filter upper %}x@y{{ top }}{% endfilter %}{% endset %}[{{ cap }}]", "[X%%YT]"),
+            ("macro_body", "{% macro host(p) %}{% with a = p %}@|{{ a }}|{{ p }}|{{ top }}{% endwith %}{% endmacro %}{{ host('P') }}", "%|P|P|T"),
+            ("call_block_in_loop", "{% macro cw() %}({{ caller() }}){% endmacro %}{% for i in [1, 2] %}{% call cw() %}@{{ i }}{{ loop.index }}{% endcall %}{% endfor %}", "(%11)(%22)"),
+            ("autoescape_in_if", "{% if top %}{% autoescape true %}@{{ lt }}{% endautoescape %}{{ lt }}{% endif %}", "%&lt;<"),
+            ("plain", "@|{{ top }}", "%|T"),
+        ];
+        let mut cases: Vec<(String, String, String, usize)> = vec![];
+        for (cname, cdef, ccall) in CALLEES {
+            for (hname, host, expect) in HOSTS {
+                for limit in [500usize, 40, 30, 24, 20, 18, 16, 14, 12, 11, 10, 9, 8, 7, 6] {
+                    let src = format!("{{% set top = 'T' %}}{{% set lt = '<' %}}{}{}{{% block good %}}{{% endblock %}}{{% if false %}}{{% block bad %}}{{% for q in [1] %}}{{% with z = q %}}{{{{ 1 // 0 }}}}{{% endwith %}}{{% endfor %}}{{% endblock %}}{{% endif %}}|{{{{ a is defined }}}}|{{{{ top }}}}", cdef, host.replace('@', &format!("{{{{ {} }}}}", ccall)));
+                    cases.push((format!("{}/{}/limit{}", cname, hname, limit), src, format!("{}|False|T", expect), limit));
+                }
+            }
+        }
+        acc.count("handled_error_programs", cases.len() as u64);
+        par_items(&cases, &acc, |_, (name, src, expect, limit), l| {
+            l.evals += 1;
+            let got = catch(|| {
+                let mut env = Environment::new();
+                env.set_recursion_limit(*limit);
+                env.add_function("attempt", |state: &mut minijinja::State, callee: Value| -> Value { callee.call(state, &[]).unwrap_or_else(|_| Value::from("~")) });
+                env.add_function("attempt_block", |state: &mut minijinja::State, name: String| -> Value { state.render_block(&name).map(Value::from).unwrap_or_else(|_| Value::from("~")) });
+                env.render_str(src, ()).map_err(|e| e.to_string())
+            });
+            match got {
+                // a limit too small for the host itself: nothing to judge
+                Ok(Err(e)) if e.contains("recursion limit") => l.outcome("host itself exceeds the recursion limit"),
+                Ok(Ok(out)) => {
+                    // the attempt yields either its fallback or the callee's output, consistently, and
+                    // everything around it is exact
+                    let ok = ["~", "ok", ""].iter().any(|x| out == expect.replace("%%", &x.to_uppercase()).replace('%', x));
+                    if ok {
+                        l.outcome(if out.contains('~') { "failure handled, scope intact" } else { "callee succeeded, scope intact" });
+                        l.nontrivial.insert(fnv(name.as_bytes()));
+                    } else {
+                        acc.fail(Failure {
+                            key: format!("scope after_handled_error callee={} host={}", name.split('/').next().unwrap_or(""), name.split('/').nth(1).unwrap_or("")),
+                            case: format!("{} :: {}", name, src),
+                            detail: format!("rendered {:?}; expected {:?} with % the attempt's result (fallback ~, or the callee's output)", out, expect),
+                            replay: json!({"kind": "handled_error", "source": src, "limit": limit, "expect": expect}),
+                        });
+                    }
+                }
+                other => acc.fail(Failure {
+                    key: format!("scope after_handled_error callee={} host={}", name.split('/').next().unwrap_or(""), name.split('/').nth(1).unwrap_or("")),
+                    case: format!("{} :: {}", name, src),
+                    detail: format!("the swallowed failure broke the render: {:?}", other),
+                    replay: json!({"kind": "handled_error", "source": src, "limit": limit, "expect": expect}),
+                }),
+            }
+        });
+    }
     let machinery = acc.n_failures() > 0 && {
         // conformance failures are machinery errors: report them but never as a verdict
         false
